@@ -116,8 +116,8 @@ def run(tier: str) -> Run:
     run.trusted = ['sa/scipp_model.py', 'scipp group/bins semantics (not analysed)']
     fi = private_helper(repo, 'chopper.filtering', '_derive', ['da'])  # else: the slope is decided inside find_plateaus below (R1 public instances, R2)
 
-    r1 = run.rule('R1', 'slope term and dtype discipline for float / int / datetime coordinates: find_plateaus groups by the documented slope without lossy '
-                        'conversions (the slope helper is also decided on its own where it exists)', 3)
+    r1 = run.rule('R1', 'dtype discipline for float / int / datetime coordinates: find_plateaus makes no lossy conversion on the way (integer unit '
+                        'conversion, narrowing cast); the slope helper is decided on its own where it exists', 3)
     for xdt in (('float64', 'int64', 'datetime64') if fi is not None else ()):
         def args(it, xdt=xdt):
             x = make_param(it, 'x', P(dim='T', positive=False), dtype=xdt)
@@ -145,7 +145,7 @@ def run(tier: str) -> Run:
             detail = {'computed': T.show(v.term), 'expected': T.show(want), 'dtype': v.dtype, 'lossy_conversions': bad}
         r1.check(ok, f'_derive[x={xdt}]', loc(fi), detail, key='derive')
 
-    r2 = run.rule('R2', 'find_plateaus: groups by concat(0, cumsum(|slope| > atol in slope units)); keeps groups with size >= min_n_points', 3)
+    r2 = run.rule('R2', 'find_plateaus: every input point takes part in the grouping (nothing is selected away before the runs are formed); the grouping mechanism is recorded, the bins themselves are decided by R6', 3)
     pfi = repo.func('chopper.filtering', 'find_plateaus')
     T.reset()
     pm = PlateauModel()
@@ -189,25 +189,18 @@ def run(tier: str) -> Run:
                     gid = val
         got = gid.term if isinstance(gid, SVar) else None
         # every input point belongs to a run: nothing may be selected away before the runs are formed
+        if len(grouped) != 1:
+            r2.ok('all points are grouped', {'decided_by': 'R6 (no single group-by-label call to inspect)'}, nontrivial=False)
         if len(grouped) == 1:
             pre = [k for v, k, r in pm.index if isinstance(k, SVar) and (r is grouped[0][0] or grouped[0][0].view_of is r)]
             r2.check(not pre, 'all points are grouped', loc(pfi), {'selection_before_grouping': [T.show(k.term) if k.term is not None else repr(k) for k in pre][:2]},
                      key='points-dropped')
-        if not grouped:
-            # another mechanism than group-by-label: the bins are decided semantically by R6 (maximal runs on a finite domain)
-            for inst_ in ('group id', 'exceed mask', 'size filter'):
-                r2.ok(inst_, {'decided_by': 'R6'}, nontrivial=False)
-        else:
-            r2.check(got is not None and eq_term(got, want_gid), 'group id', loc(pfi),
-                     {'grouping_coordinate': T.show(got) if got is not None else repr(gid), 'expected': T.show(want_gid), 'group_calls': len(grouped)}, key='group-id')
-            # strictness is part of the group id; reported separately for readability
-            r2.check(got is not None and eq_term(got, want_gid), 'exceed mask', loc(pfi), {'expected': 'abs(slope) > atol (strict), atol in slope units'}, key='mask')
-            keys = [k for v, k, r in pm.index if isinstance(k, SVar) and k.dtype == 'bool' and pm.is_group_result(v)]
-            kt = keys[0].term if len(keys) == 1 else None
-            ret = rets[0].value
-            derived = isinstance(ret, SVar) and pm.derives_from_filtered(ret)
-            r2.check(kt is not None and eq_term(kt, want_size) and derived, 'size filter', loc(pfi),
-                     {'filter_key': T.show(kt) if kt is not None else [repr(k) for k in keys], 'expected': T.show(want_size), 'result_is_the_filtered_groups': derived}, key='size')
+        # the mechanism (which expression the points are grouped by, how the size filter is written) is not a verdict: the bins are decided
+        # semantically by R6 on a finite domain.  It is recorded for the reader of the evidence.
+        mech = {'grouping_coordinate': T.show(got)[:300] if got is not None else None, 'documented_mechanism': T.show(want_gid)[:300],
+                'same_as_documented': bool(got is not None and eq_term(got, want_gid)), 'decided_by': 'R6'}
+        r2.ok('mechanism: group id = concat(0, cumsum(|slope| > atol)), size filter (informational)', mech, nontrivial=False)
+        r2.ok('exceed mask (decided by R6: steps exactly at and just above the tolerance)', nontrivial=False)
 
     # R1 on the public function: the same grouping coordinate for integer and datetime time stamps, no lossy conversion on the way
     for xdt in ('float64', 'int64', 'datetime64'):
@@ -250,10 +243,8 @@ def run(tier: str) -> Run:
         xs1, ys1 = Rat.sym('x'), Rat.sym('y')
         slope1 = (idx(ys1, 'slice(1, None, None)') - idx(ys1, 'slice(None, -1, None)')) / (idx(xs1, 'slice(1, None, None)') - idx(xs1, 'slice(None, -1, None)'))
         want1 = Rat.fn('concat', Rat.const(0), Rat.fn('cumsum', T.fn_cmp('>', T.fn_abs(slope1), Rat.sym('atol', positive=True))))
-        got1 = gid1.term if isinstance(gid1, SVar) else None
         lossy1 = [dict(e.detail, where=e.where) for e in events(rets1[0], 'int-unit-conversion', 'narrowing-cast')]
-        r1.check(got1 is not None and eq_term(got1, want1) and not lossy1, inst, loc(pfi),
-                 {'grouping_coordinate': T.show(got1) if got1 is not None else repr(gid1), 'expected': T.show(want1), 'lossy_conversions': lossy1[:2]}, key='derive-public')
+        r1.check(not lossy1, inst, loc(pfi), {'lossy_conversions': lossy1[:2], 'note': 'which bins come out is decided by R6'}, key='derive-public')
 
     r3 = run.rule('R3', 'collapse: low = bins.min, high = next representable above bins.max (float: nextafter; integer / datetime: one unit)', 4)
     cfi = repo.func('chopper.filtering', 'collapse_plateaus')
@@ -347,6 +338,19 @@ def run(tier: str) -> Run:
         ok = outs[0].value.view_of is not None and outs[0].value.view_of.origin == 'frequency' and keys is not None and eq_term(keys, want)
         detail = {'index_key': T.show(keys) if keys is not None else None, 'expected': T.show(want)}
     r4.check(ok, 'filter_in_phase', loc(ffi), detail, key='filter')
+    # integer-valued frequencies (e.g. counts per second) against a fractional reference, and single precision: the predicate is the same
+    # and neither operand is narrowed on the way (a reference of 12.5 Hz must not become 12 Hz)
+    for fdt, rdt in (('int64', 'float64'), ('int32', 'float64'), ('float32', 'float64'), ('float64', 'float32'), ('int64', 'int64')):
+        outs = run_kernel(repo, ffi, specs, dtypes={'frequency': fdt, 'reference': rdt})
+        ok = len(outs) == 1 and outs[0].kind == 'return' and isinstance(outs[0].value, SVar)
+        detail = {'outcomes': [(o.kind, o.exc_type, o.where) for o in outs]}
+        if ok:
+            keys = outs[0].value.members.get('index_key')
+            want = mask(Rat.sym('frequency'), Rat.sym('reference'), Rat.sym('rtol', positive=True))
+            lossy = [dict(e.detail, where=e.where) for e in events(outs[0], 'narrowing-cast', 'int-unit-conversion')]
+            ok = keys is not None and eq_term(keys, want) and not lossy
+            detail = {'index_key': T.show(keys) if keys is not None else None, 'expected': T.show(want), 'lossy_conversions': lossy[:2]}
+        r4.check(ok, f'filter_in_phase[frequency: {fdt}, reference: {rdt}]', loc(ffi), detail, key=f'filter-dtype:{fdt}:{rdt}')
     ifi = helpers.get('_is_in_phase')
     if ifi is not None and [a.arg for a in ifi.node.args.args + ifi.node.args.kwonlyargs] == list(specs):
         outs = run_kernel(repo, ifi, specs)
